@@ -33,6 +33,7 @@ func runC11(r *engine.Run) {
 	r.Rule("AGREE-persist", "see C10: every field Serialize writes is read back by DeserializeNode (a reopened trie is rebuilt from exactly what was saved)")
 	r.Rule("DOM-memo", "see C09: CalcHash stores what it recomputes (Save writes the node under Hash())")
 	r.Rule("AGREE-decode", "see C10: DeserializeNode accumulates a branch's weight from the child weights it reads and stores every accepted child entry into a child slot; shortNode.Serialize fills the persisted value reference from the value's Hash() and Weight()")
+	r.Rule("AGREE-kvops", "each operation of the pebble adapter maps to the pebble operation of the same meaning (Put -> Set, Delete -> Delete, Get -> Get; never SingleDelete, which is only sound for keys written once), and the batch's Put and Delete hold the batch's mutex (Commit saves the subtrees of a branch root from parallel goroutines into one batch)")
 	r.Rule("AGREE-sync", "the storage batch's Commit(sync) passes pebble.Sync exactly on the path where its sync parameter is true and pebble.NoSync where it is false (a commit the caller asked to be durable is fsynced)")
 	r.Rule("DOM-cleanfail", "in delete no store dirty = true can be followed by a recursive delete call (nodes are marked only after the delete below them returned): a failed delete (absent key) leaves its search path clean, so the next commit does not re-save unchanged nodes")
 	r.Rule("ORDER-joined", "every goroutine the weighted trie starts that writes trie state (the collectors of Commit) signals the WaitGroup on every path to its end (Done dominates every return, or is deferred), and the function that starts them adds exactly as many to the WaitGroup as it starts: the wait of ORDER-wait covers every collector")
@@ -52,6 +53,7 @@ func runC11(r *engine.Run) {
 	domUnchanged(r, "DOM-unchanged")
 	refShared(r, "REF-shared")
 	agreeSync(r, "AGREE-sync")
+	kvAdapter(r, "AGREE-kvops")
 	orderWait(r, "ORDER-wait")
 	orderJoined(r, "ORDER-joined")
 	recordsEvery(r, "AGREE-purge")
